@@ -74,6 +74,7 @@ class ScriptedLLM(LLM):
     calls: List = []
     temperature: float = 0.7
     max_tokens: int = 256
+    top_p: Optional[float] = None      # an attribute whose configured value is None
     latency: Any = None  # optional callable(task, prompt) -> seconds (virtual time)
     streaming: bool = False
     chunker: Any = None
